@@ -35,6 +35,11 @@ pub struct Case {
     /// is replaced under in-flight RPCs (they may fail; none may be delivered twice)
     #[serde(default)]
     pub redials: Vec<(bool, u16)>,
+    /// (outbound default in s on both nodes, `timeout` header in s on every request): both far
+    /// beyond anything the traffic needs, so they cut nothing off; the header is ordinary request
+    /// data and must reach the handler as sent
+    #[serde(default)]
+    pub timeouts: Option<(u32, u32)>,
 }
 
 pub fn size(max: u32) -> BoxedStrategy<u32> {
@@ -97,6 +102,11 @@ pub fn check(case: &Case, obs: &mut Obs) -> Result<(), Fail> {
         sa.config.max_frame_size = case.max_frame.0.map(|n| n as usize);
         let mut sb = NodeSpec::new(1);
         sb.config.max_frame_size = case.max_frame.1.map(|n| n as usize);
+        if let Some((d, _)) = case.timeouts {
+            sa.config.outbound_request_timeout_ms = Some(d as u64 * 1000);
+            sb.config.outbound_request_timeout_ms = Some(d as u64 * 1000);
+        }
+        let timeout_header: Option<(String, String)> = case.timeouts.map(|(_, h)| ("timeout".to_string(), (h as u64 * 1_000_000_000).to_string()));
         let limited = case.max_frame.0.is_some() || case.max_frame.1.is_some() || !case.redials.is_empty();
         let a = sim.node_with(sa)?;
         let b = sim.node_with(sb)?;
@@ -124,10 +134,11 @@ pub fn check(case: &Case, obs: &mut Obs) -> Result<(), Fail> {
             let (net, target) = if r.from_a { (a.net.clone(), b.id()) } else { (b.net.clone(), a.id()) };
             let r = r.clone();
             let fabric = sim.fabric.clone();
+            let timeout_header = timeout_header.clone();
             handles.push(tokio::spawn(async move {
                 sleep_ms(r.start_ms as u64).await;
                 let ctl = Ctl { id: i as u64, delay_ms: r.delay_ms, status_idx: r.status_idx, resp_len: r.resp_len, resp_hdrs: r.resp_hdrs, mode: 0 };
-                let headers: Vec<_> = r.headers.iter().filter(|(k, _)| k != "timeout").cloned().collect();
+                let headers: Vec<_> = r.headers.iter().filter(|(k, _)| k != "timeout").cloned().chain(timeout_header).collect();
                 let req = ctl_request(&r.route, &headers, &ctl, r.req_len as usize);
                 let t0 = fabric.now_ms();
                 let result = match within(600_000, net.rpc(target, req)).await {
@@ -163,7 +174,7 @@ pub fn check(case: &Case, obs: &mut Obs) -> Result<(), Fail> {
             let r = &case.rpcs[d.idx];
             let ctl = Ctl { id: d.idx as u64, delay_ms: r.delay_ms, status_idx: r.status_idx, resp_len: r.resp_len, resp_hdrs: r.resp_hdrs, mode: 0 };
             let body = ctl.encode(r.req_len as usize);
-            let hdrs: HashMap<String, String> = r.headers.iter().filter(|(k, _)| k != "timeout").cloned().collect();
+            let hdrs: HashMap<String, String> = r.headers.iter().filter(|(k, _)| k != "timeout").cloned().chain(timeout_header.clone()).collect();
             sent.insert(d.idx as u64, (r.from_a, r.route.clone(), headers_hash(&hdrs), fnv(&body), body.len()));
             let (callee, caller) = if r.from_a { (&b, &a) } else { (&a, &b) };
             let starts = callee.rec.starts_of(d.idx as u64);
@@ -236,14 +247,15 @@ impl Part for Traffic {
     type Case = Case;
     fn name(&self) -> &'static str { "traffic" }
     fn rule(&self) -> &'static str {
-        "one connection A<->B on the virtual fabric, 1-40 RPCs in both directions with generated start offsets, routes (any string), 0-8 headers, request/response sizes 0..multi-MiB (incl. 1199-1201 = one datagram), handler delays (arbitrary completion order), all eight status codes, optional re-dials that replace the connection under the traffic, optional max_frame_size on either side (oversize frames fail single RPCs, possibly after the handler ran), and a fault script (loss <=25%, delay jitter <=50 ms => reordering, duplication <=10%); server behaviour is a pure function F of the request; oracle: Ok(resp) => resp == F(request sent) exactly and exactly one handler start with the sent route/headers/body; starts <= 1 for every id; nothing delivered that was not sent; non-trivial = >=2 RPCs overlapping in virtual time, or a body spanning >1 datagram, or a fault that hit a datagram; distinct by case"
+        "one connection A<->B on the virtual fabric, 1-40 RPCs in both directions with generated start offsets, routes (any string), 0-8 headers, request/response sizes 0..multi-MiB (incl. 1199-1201 = one datagram), handler delays (arbitrary completion order), all eight status codes, optional re-dials that replace the connection under the traffic, optional max_frame_size on either side (oversize frames fail single RPCs, possibly after the handler ran), optionally an outbound default timeout of hours on both nodes together with a `timeout` header of hours on every request (larger or smaller than the default; it cuts nothing off and must reach the handler as sent), and a fault script (loss <=25%, delay jitter <=50 ms => reordering, duplication <=10%); server behaviour is a pure function F of the request; oracle: Ok(resp) => resp == F(request sent) exactly and exactly one handler start with the sent route/headers/body; starts <= 1 for every id; nothing delivered that was not sent; non-trivial = >=2 RPCs overlapping in virtual time, or a body spanning >1 datagram, or a fault that hit a datagram; distinct by case"
     }
     fn strategy(&self, _t: Tier) -> BoxedStrategy<Case> {
         let max = self.0;
         let lim = || prop_oneof![6 => Just(None), 1 => (200u32..100_000).prop_map(Some), 1 => (200u32..3_000).prop_map(Some)];
         let redials = prop_oneof![3 => Just(vec![]), 1 => prop::collection::vec((any::<bool>(), 0u16..400), 1..3)];
-        (prop::collection::vec(rpc(max), 1..40), prop::collection::vec(fault_seg(2, 3000), 0..4), any::<u64>(), 1u8..30, (lim(), lim()), redials)
-            .prop_map(|(rpcs, faults, fault_seed, link_delay_ms, max_frame, redials)| Case { rpcs, faults, fault_seed, link_delay_ms, max_frame, redials })
+        let timeouts = prop_oneof![3 => Just(None), 1 => (3_600u32..86_400, 1u32..400_000).prop_map(|(d, h)| Some((d, 3_600 + h)))];
+        (prop::collection::vec(rpc(max), 1..40), prop::collection::vec(fault_seg(2, 3000), 0..4), any::<u64>(), 1u8..30, (lim(), lim()), redials, timeouts)
+            .prop_map(|(rpcs, faults, fault_seed, link_delay_ms, max_frame, redials, timeouts)| Case { rpcs, faults, fault_seed, link_delay_ms, max_frame, redials, timeouts })
             .boxed()
     }
     fn run(&self, c: &Case, obs: &mut Obs) -> Result<(), Fail> { check(c, obs) }
